@@ -50,10 +50,19 @@ CLAIMED = {
 NOTE = ("Trusted: Coq 8.16.1 kernel; tools/gen_constants.py; extraction (ExtrOcamlBasic only) + harness/mdrv.ml; harness/cdrv*.c; "
         "gcc sanitizers. The C code is modelled (hand-written Gallina) and tied by differential correspondence on every run, not verified directly.")
 
+KERNEL_TIE = {"C05": "srtp_rdbx_check / srtp_rdbx_add_index / bitvector_left_shift", "C06": "srtp_index_guess / srtp_rdbx_estimate_index / srtp_estimate_index",
+              "C07": "srtp_rdb_check / srtp_rdb_add_index / v128_left_shift", "C08": "srtp_rdbx_check / srtp_rdbx_add_index / srtp_rdb_increment",
+              "C09": "srtp_key_limit_update / srtp_key_limit_set", "C16": "srtp_estimate_index / srtp_rdbx_set_roc_seq",
+              "C18": "v128_left_shift / bitvector_left_shift / bitvector_set_to_zero"}
 checks = []
 for i in ids:
     if i in CLAIMED:
         text, ref, tech = CLAIMED[i]
+        if i in KERNEL_TIE:
+            text += (" Second tie (translator): the integer kernels this property rests on (" + KERNEL_TIE[i] + ") are translated from the C text of /repo on every run "
+                     "(tools/gen_kernels.py, clang AST -> Gallina) and PROVED equal to the hand-written kernel models on the whole range of the C types "
+                     "(KernelGenProofs.v, KernelGenProofs2.v); when that proof breaks, coq/KernelSearch.v searches boundary grids inside the theorems' hypotheses "
+                     "for an input on which code and model differ and reports it as the replay.")
         checks.append({
             "property_id": i,
             "quick_cmd": f"bin/check {i} quick",
